@@ -193,12 +193,30 @@ def write_replay(ctx, obj):
     d = os.path.join(ROOT, 'replays'); os.makedirs(d, exist_ok=True)
     p = os.path.join(d, f'{ctx.pid}_{ctx.tier}_{ctx.seed}_{len(os.listdir(d))}.json')
     obj = dict(obj); obj.setdefault('property', ctx.pid); obj.setdefault('seed', ctx.seed)
+    obj.setdefault('tier', ctx.tier)
     obj.setdefault('how_to_replay', f'bin/check {ctx.pid} --replay {p}')
     json.dump(obj, open(p, 'w'), indent=1, default=str)
     return p
 
 def finish(ctx, level, technique_note, assumptions, extra_cov=None):
     """decide, write evidence, print lines, return exit code"""
+    rp = getattr(ctx, 'replay_of', None)
+    if rp is not None:
+        # replay mode: the run was regenerated deterministically from the recorded tier and seed; report whether the
+        # recorded failure (same signature, or the same broken obligation kind) is still there.  No evidence is written.
+        ctx.cleanup()
+        if rp.get('kind') == 'violation':
+            same = [v for v in ctx.violations if v.get('sig') == rp.get('sig')]
+            if same:
+                print(f"REPLAY: reproduced {rp.get('sig')}: {same[0].get('what')} (observed {same[0].get('observed')})")
+                print(f"VIOLATION property={ctx.pid} replay={rp.get('_path')}")
+                return 1
+            print(f"REPLAY: {rp.get('sig')} is not reproduced on the current tree"); return 0
+        if ctx.broken:
+            print('REPLAY: still broken: ' + '; '.join(ctx.broken)[:600])
+            print(f"VIOLATION property={ctx.pid} replay={rp.get('_path')} no-failing-input-found")
+            return 1
+        print('REPLAY: every obligation and correspondence checks on the current tree'); return 0
     known = [k for k in load_known() if k.get('property') == ctx.pid]
     open_known = [k for k in known if k.get('status') == 'open']
     new_viol = []; hits = {}
